@@ -744,6 +744,11 @@ package memberlist
 //@   at call Broadcast.Finished: set $fin := upd($fin, q.tm[lb.name], $fin[q.tm[lb.name]] + 1)
 //@   at call (*github.com/google/btree.BTree).Ascend: iter-invariant fin [C10]: (forall p *limitedBroadcast :: !allocated(p) ==> $fin[p] == 0) && $fin[lb] == 0 && (forall p *limitedBroadcast :: inTree(q.tq, p) ==> $fin[p] == 0 || ($fin[p] == 1 && 0 <= $ridx[p] && $ridx[p] < len(*cell_remove) && (*cell_remove)[$ridx[p]] == p))
 //@   loop #1 invariant fin [C10]: (forall p *limitedBroadcast :: !allocated(p) ==> $fin[p] == 0) && $fin[lb] == 0 && (forall p *limitedBroadcast :: inTree(q.tq, p) ==> $fin[p] == 0 || ($fin[p] == 1 && rangeindex < $ridx[p] && $ridx[p] < len(remove) && remove[$ridx[p]] == p))
+//@   at call (*github.com/google/btree.BTree).Ascend: iter-invariant done [C10]: forall i int :: 0 <= i && i < len(*cell_remove) ==> $fin[(*cell_remove)[i]] == 1
+//@   loop #1 invariant done [C10]: forall i int :: 0 <= i && i < len(remove) ==> $fin[remove[i]] == 1
+//@   at call (*github.com/google/btree.BTree).Ascend: iter-invariant acct [C10]: old(q.tq) != nil ==> (forall p *limitedBroadcast :: old(inTree(q.tq, p)) ==> inTree(q.tq, p))
+//@   loop #1 invariant acct [C10]: old(q.tq) != nil ==> (forall p *limitedBroadcast :: old(inTree(q.tq, p)) ==> inTree(q.tq, p) || $fin[p] == 1)
+//@   ensures once [C10]: old(q.tq) != nil ==> (forall p *limitedBroadcast :: old(inTree(q.tq, p)) ==> finAcct(q, p))
 //@   at call (*github.com/google/btree.BTree).Ascend: iter-invariant rm [C10]: forall i int :: 0 <= i && i < len(*cell_remove) ==> inTree(q.tq, (*cell_remove)[i]) && (*cell_remove)[i].name == ""
 //@   at call (*github.com/google/btree.BTree).Ascend: iter-invariant seen [C10]: forall i int :: 0 <= i && i < len(*cell_remove) ==> visited((*cell_remove)[i])
 //@   at call (*github.com/google/btree.BTree).Ascend: iter-invariant distinct [C10]: forall i int, j int :: 0 <= i && i < j && j < len(*cell_remove) ==> (*cell_remove)[i] != (*cell_remove)[j]
